@@ -121,6 +121,8 @@ class ManualH2Peer(simnet.H2Peer):
             st = self.streams.get(ev.stream_id)
             if st is not None:
                 st.reset_by_client = True
+        elif isinstance(ev, h2.events.PingAckReceived):
+            self.pings_outstanding = max(0, getattr(self, "pings_outstanding", 0) - 1)
         elif isinstance(ev, h2.events.SettingsAcknowledged):
             if self.pending_limits:
                 v = self.pending_limits.pop(0)
@@ -222,6 +224,8 @@ class ManualH2Peer(simnet.H2Peer):
         """the server frames that may be sent now: list of tuples"""
         if not self.alive():
             return []
+        if cfg.get("hold_until_ack") and getattr(self, "pings_outstanding", 0) > 0:
+            return []        # a server that measures the round trip: nothing more is sent until its PING has been acknowledged
         out = []
         if self.goaway_last is not None and cfg.get("goaway_closes", True) and False:
             return out
@@ -301,6 +305,7 @@ class ManualH2Peer(simnet.H2Peer):
             self.pending_limits.append(None)
         elif kind == "ping":
             self.conn.ping(b"12345678")
+            self.pings_outstanding = getattr(self, "pings_outstanding", 0) + 1
         elif kind == "credit":
             sid = act[2]
             if sid == 0:
@@ -534,6 +539,10 @@ class H2Explorer(concur.Explorer):
                 self.violations.append(("C14:request-assigned-to-terminated-connection", {"caller": c.idx, "where": peers_seen}))
             if (c.outcome or "") == "error:ConnectionNotAvailable":
                 self.violations.append(("C14:connection-not-available-leaked", {"caller": c.idx, "where": peers_seen}))
+        # C05: every caller is done (whatever happened to its connection): the pool counts no request any more
+        if self.pool._requests:
+            self.violations.append(("C05:request-still-counted", {"repr": repr(self.pool), "n": len(self.pool._requests),
+                                                                  "outcomes": [(c.idx, c.mode, c.outcome, getattr(c, "exc", None)) for c in self.callers]}))
         # credit conservation on every client connection whose responses were all consumed
         for conn in list(self.pool.connections):
             h2c = getattr(conn, "_connection", None)
@@ -672,6 +681,17 @@ async def schedule(ex, spawn, settle):
             peer = ex.peers[act[1]]
             ex.trace.append(act)
             peer.do(act, rng, cfg)
+            if act[0] in ("hdr", "end") and cfg.get("ping_with_frames") and rng.random() < cfg["ping_with_frames"]:
+                # a round-trip probe sent along with response frames (same segment when reads coalesce)
+                ex.trace.append(("ping", peer.idx))
+                peer.do(("ping", peer.idx), rng, cfg)
+            if act[0] == "hdr" and cfg.get("badframe_after_hdr") and rng.random() < cfg["badframe_after_hdr"] and \
+                    not getattr(peer, "sent_garbage", False):
+                # the response head of one stream, then bytes h2 rejects: whoever holds that response closes it on a connection h2 gave up
+                bact = ("badframe", peer.idx, rng.randrange(4))
+                ex.trace.append(bact)
+                peer.do(bact, rng, cfg)
+                mark_conn_disturbed(peer)
         elif a == "rst":
             pi, sid = rng.choice(rstable)
             peer = ex.peers[pi]
